@@ -717,12 +717,17 @@ def _sp_yields(c, v0, v, k, val):
     row, w = val
     S, W = v0.self.g_samples, v0.self.g_weights
     return {'row_of_the_drawn_index': c.And(c.Eq(row[0], S[x, 0]), c.Eq(row[1], S[x, 1])),
-            'weight_of_the_same_index': c.Eq(w, W[x] + 1e-300) if c.mode != 'conc' else abs(w - W[x]) <= 1e-12}
+            'weight_of_the_same_index': c.Eq(w, W[x] + 1e-300) if c.mode != 'conc' else (abs(w - W[x]) <= 1e-12 and w > 0)}
 
 
 def _sp_post(c, v0, v1, r):
     fx = c.fixed if c.mode != 'conc' else c.values
     d = {'one_pair_per_drawn_index': len(r) == len(fx['picks'])}
+    N = fx['N']
+    W0, W1, S0, S1 = v0.self.g_weights, v1.self.g_weights, v0.self.g_samples, v1.self.g_samples
+    # the arrays the sampler stored are handed out by reference (get_weights / get_samples): drawing from them must not change them
+    d['stored_weights_and_samples_untouched'] = c.And(*([W1[i] == W0[i] for i in range(N)] + [S1[i, j] == S0[i, j] for i in range(N) for j in range(2)])) \
+        if c.mode != 'conc' else (list(W1) == list(W0) and [list(x) for x in S1] == [list(x) for x in S0])
     if c.mode != 'conc':
         calls = [e for e in (c.trace or []) if e[0] == 'random_int_iter']
         d['draws_from_all_samples_with_the_configured_fraction'] = len(calls) == 1 and z3.simplify(to_int_(calls[0][1]) - fx['N']).eq(z3.IntVal(0)) \
@@ -753,7 +758,8 @@ def _sp_native(c, p):
     from pyvc.unit import patched
     with patched(saved, lambda total, fraction: iter(list(picks))):
         vals = [(np.array(row, dtype=float), float(w)) for row, w in o.sample_parameters(0)]
-    return GenTrace(vals, [p] * len(vals)), p
+    after = dict(p, self=dict(p['self'], g_samples=S.tolist(), g_weights=W.tolist()))
+    return GenTrace(vals, [p] * len(vals)), after
 
 
 _SP_CASES = [dict(N=N, picks=pk) for N, pk in ((1, ()), (1, (0,)), (2, (1,)), (3, (2, 0)), (4, (3, 1)), (4, (0, 2, 1)))]
@@ -762,7 +768,7 @@ _SP_CASES = [dict(N=N, picks=pk) for N, pk in ((1, ()), (1, (0,)), (2, (1,)), (3
 def _sp_gen(rng):
     d = dict(rng.choice(_SP_CASES))
     N = d['N']
-    d.update(samples=[[rng.uniform(-1, 1), rng.uniform(-1, 1)] for _ in range(N)], weights=[rng.uniform(0, 1) for _ in range(N)])
+    d.update(samples=[[rng.uniform(-1, 1), rng.uniform(-1, 1)] for _ in range(N)], weights=[rng.choice([0.0, rng.uniform(0, 1), rng.uniform(0, 1)]) for _ in range(N)])
     return d
 
 
